@@ -485,7 +485,9 @@ impl<Word: BitArray, B: WriteWords<Word>> StackCoder<Word, B> {
                 // A stack of compressed data must not end in a zero word.
                 return Err(CoderError::Frontend(compressed));
             }
-            let mask_end_bit = Word::one() << last_word.trailing_zeros() as usize;
+            // The end marker is the most significant set bit (it was written last).
+            let mask_end_bit =
+                Word::one() << (Word::BITS - 1 - last_word.leading_zeros() as usize);
             (last_word ^ mask_end_bit, mask_end_bit >> 1)
         } else {
             (Word::zero(), Word::zero())
